@@ -492,7 +492,9 @@ def impl_loader(payload):
     root = payload['root']
     out = []
     try:
-        loc = hs.write_catalog(root, spec)
+      for be in (False, True):
+        # the same values stored little-endian (native) and big-endian (`byteorder: big` blocks, legal ASDF)
+        loc = hs.write_catalog(os.path.join(root, 'be' if be else 'le'), dict(spec, big_endian=be))
         groups = sorted({k[:-4] for k in spec['halo'] if k.endswith('_u16') and 'eigenvecs' in k})   # e.g. sigmar_eigenvecs_com
         for g in groups:
             stem, frame = g.rsplit('_', 1)
@@ -500,6 +502,8 @@ def impl_loader(payload):
             ref = [a.astype(np.float32) for a in _unpack_euler16(code)]
             for k in (1, 2, 3):
                 for sel in itertools.combinations(('Min', 'Mid', 'Maj'), k):
+                    if be and k == 2:
+                        continue
                     fields = [f'{stem}{w}_{frame}' for w in sel]
                     try:
                         cat = CompaSOHaloCatalog(loc['path'], cleaned=False, fields=fields)
@@ -511,10 +515,11 @@ def impl_loader(payload):
                             if arr.shape != want.shape or not np.array_equal(arr, want) or norm_err > 1e-6:
                                 j = int(np.argmax(np.abs(arr - want).sum(axis=1))) if arr.shape == want.shape else 0
                                 bad.append({'column': f, 'row': j, 'code': int(code[j]), 'got': [float(x) for x in np.ravel(arr[j])],
-                                            'direct_decode': [float(x) for x in want[j]], 'norm_err': norm_err})
-                        out.append({'class': 'ok', 'fields': fields, 'bad': bad})
+                                            'direct_decode': [float(x) for x in want[j]], 'norm_err': norm_err,
+                                            'stored': 'big-endian' if be else 'little-endian'})
+                        out.append({'class': 'ok', 'fields': fields, 'bad': bad, 'big_endian': be})
                     except Exception as e:  # noqa: BLE001
-                        out.append({'class': classify(e), 'fields': fields, 'bad': [], 'value': repr(e)[:200]})
+                        out.append({'class': classify(e), 'fields': fields, 'bad': [], 'value': repr(e)[:200], 'big_endian': be})
     finally:
         shutil.rmtree(root, ignore_errors=True)
     return out
@@ -570,7 +575,9 @@ def explore(ctx):
             counterexamples.append({
                 'key': 'euler16:loader:' + '+'.join(f.split('eigenvecs')[1][:3] for f in lr['fields']),
                 'what': f"the eigenvector columns {lr['fields']} returned by CompaSOHaloCatalog are not the (unit) axes their codes decode to",
-                'input': {'fields': lr['fields'], 'codes': [b['code'] for b in lr['bad']][:3], 'loader': True},
+                'input': {'fields': lr['fields'], 'codes': [b['code'] for b in lr['bad']][:3], 'loader': True,
+                          'stored': 'big-endian' if lr.get('big_endian') else 'little-endian'},
+                'seed': ctx.seed,
                 'impl_result': lr['bad'][:2] or lr.get('value'), 'expected': 'float32 of the direct decoding of the stored code, unit length',
                 'predicate': PRED['orthonormal'], 'predicate_id': 'loader'})
     cov = r.get('coverage', {})
@@ -665,7 +672,8 @@ def replay(ctx, rec):
     if pid == 'loader':
         lres = ctx.run_impl('harness.c18', 'impl_loader', {'seed': int(rec.get('seed', 0)), 'nrows': 24,
                                                            'root': os.path.join(ctx.scratch, 'euler_cat_replay')})
-        hit = [lr for lr in lres if lr['fields'] == inp['fields'] and (lr['class'] != 'ok' or lr['bad'])]
+        hit = [lr for lr in lres if lr['fields'] == inp['fields'] and (lr['class'] != 'ok' or lr['bad'])
+               and bool(lr.get('big_endian')) == (inp.get('stored') == 'big-endian')]
         return bool(hit), {'input': inp, 'impl_result': hit[:1]}
     if pid == 'rowwise':
         r = ctx.run_impl('harness.c18', 'impl_some', {'codes': inp['codes'], 'rowwise': True})
